@@ -8,6 +8,31 @@ use crate::roles::*;
 use serde_json::json;
 use std::collections::{BTreeMap, BTreeSet};
 
+/// dispatch arms that are nothing but a diverging macro (`unreachable!()`), proven dead by evaluating the entry core
+/// (dispatch inlined, builders summarised): no path of the core reaches a panic or diverges.  Returns "file.rs:line".
+fn proved_dead_arms(cx: &Cx) -> BTreeSet<String> {
+    let mut out = BTreeSet::new();
+    for kind in ["struct", "enum"] {
+        let arms: Vec<(String, usize)> = cx.roles.iter().filter(|r| r.item_kind == kind && r.callee.is_none()).filter_map(|r| match &r.body {
+            syn::Expr::Macro(m) if ["unreachable", "panic", "unimplemented", "todo"].iter().any(|n| m.mac.path.is_ident(n)) => Some((r.core.file.clone(), syn::spanned::Spanned::span(&m.mac.path).start().line)),
+            _ => None,
+        }).collect();
+        if arms.is_empty() { continue; }
+        let Some(cm) = crate::misc::core_model(cx, kind) else { continue };
+        if !cm.unsupported.iter().all(|u| u.starts_with("soft:") || u.starts_with("loop-carried bounds flag")) { continue; }
+        let reaches = cm.outs.iter().any(|(st, fl)| matches!(fl, crate::eval::Flow::Div) || st.events.iter().any(|e| matches!(e, Event::Panic { .. })));
+        if cm.outs.is_empty() || reaches { continue; }
+        for (f, l) in arms { out.insert(format!("{}:{l}", f.rsplit('/').next().unwrap_or(&f))); }
+    }
+    out
+}
+fn site_is(loc: &str, dead: &BTreeSet<String>) -> bool {
+    // loc: derive-ex/src/item_type.rs:200:12: 200:26
+    let mut it = loc.split(':');
+    let (Some(file), Some(line)) = (it.next(), it.next()) else { return false };
+    dead.contains(&format!("{}:{}", file.rsplit('/').next().unwrap_or(file), line.trim()))
+}
+
 /// ceilings counted on the reference tree: (class, max sites in hand-written reachable code)
 const PANIC_CEILINGS: [(&str, usize, &str); 7] = [
     ("panic", 2, "two `unreachable!()`: is_reverse (only called with Ord / PartialOrd) and the Deref builder (only reached from the Deref | DerefMut arm); both re-checked by ES-no-panic-path"),
@@ -41,10 +66,13 @@ pub fn c16(cx: &Cx) -> i32 {
         let expn_fns: BTreeSet<&String> = f.fns.iter().filter(|x| x.expn).map(|x| &x.name).collect();
         // (a) panic inventory
         let mut by_class: BTreeMap<&str, Vec<String>> = BTreeMap::new();
+        let dead = proved_dead_arms(cx);
+        rep.analysed.insert("dispatch arms proven unreachable by the interpreter".into(), json!(dead));
         for c in &f.calls {
             if !reach.contains(&c.caller) { continue; }
             if let Some(cl) = panic_class(c) {
                 if expn_fns.contains(&c.caller) { continue; } // derive-generated (structmeta / syn) code: trusted dependency output
+                if cl == "panic" && site_is(&c.loc, &dead) { continue; }
                 by_class.entry(cl).or_default().push(format!("{} -> {} at {}", c.caller, c.generic, c.loc));
             }
         }
@@ -100,8 +128,10 @@ pub fn c16(cx: &Cx) -> i32 {
     }
     // ---------------- interpreter rule: no role path reaches a panic
     let mut runs = 0;
+    let dead_arms = proved_dead_arms(cx);
     for r in &cx.roles {
         if r.variant == "_" { continue; }
+        if r.callee.is_none() { if let syn::Expr::Macro(m) = &r.body { if dead_arms.contains(&format!("{}:{}", r.core.file.rsplit('/').next().unwrap_or(&r.core.file), syn::spanned::Spanned::span(&m.mac.path).start().line)) { rep.pass("ES-no-panic-path"); continue; } } }
         let modes: Vec<CollMode> = match (r.item_kind.as_str(), r.variant.as_str()) {
             ("struct", "Deref") | ("struct", "DerefMut") => vec![CollMode::Unrolled(0), CollMode::Unrolled(1), CollMode::Unrolled(2), CollMode::Unrolled(3)],
             ("enum", "Default") => vec![CollMode::Unrolled(0), CollMode::Unrolled(1), CollMode::Unrolled(2)],
